@@ -46,7 +46,7 @@ watched parameter that has a queued event (theorem `one_event_per_parameter_with
 theorem flush_first_round (c : Cfg) (f : Nat) (w : World) (he : w.events ≠ [])
     (hok : (run c f (.flushRound (sortByPrec w.queued) w.events) { w with events := [], queued := [] }).1 = .ok) :
     ∃ tail, callSigs (run c (f + 1) .flush w).2.2 =
-      (sortByPrec w.queued).map (fun wt => (wt.cb, evsFor w.trigger wt w.events, true)) ++ tail := by
+      (sortByPrec w.queued).map (fun wt => (wt.cb, shown wt (evsFor w.trigger wt w.events), true)) ++ tail := by
   have hne : w.events.isEmpty = false := by
     cases hh : w.events with
     | nil => exact absurd hh he
